@@ -70,6 +70,17 @@ Definition gv_sym_name (name : string) (ops : list node) : option string :=
   | Leaf KSymbol s _ _ :: _ => if mem_str (lower name) LIST_FUNCTIONS then Some s else None
   | _ => None
   end.
+(* the only operand, when it is a symbol *)
+Definition single_sym (ops : list node) : option string :=
+  match ops with [Leaf KSymbol s _ _] => Some s | _ => None end.
+(* the commands go loop / go next / go previous: the only operand is one of these symbols, statement position *)
+Definition go_bare (name : string) (paren : bool) (ops : list node) : option string :=
+  if String.eqb name "go" && negb paren then
+    match single_sym ops with
+    | Some s => if mem_str s ["loop"; "next"; "previous"] then Some s else None
+    | None => None
+    end
+  else None.
 Definition set_last (l : list string) (o : option string) : list string :=
   match o with
   | Some s => match rev l with _ :: before => rev (s :: before) | [] => [] end
@@ -102,7 +113,7 @@ Fixpoint gen_lingo_sp (sp : bool) (n : node) (ind : nat) {struct n} : string :=
   | Leaf k name _ flag =>
     match k with
     | KConst | KConstInt => lingo_const k name
-    | KSymbol => if mem_str name CONST_KNOWN_SYMBOLS || negb flag then name else "#" ++ name
+    | KSymbol => if negb flag then name else "#" ++ name
     | KPropName => if mem_str name VARIABLE_KNOWN_SYMBOLS then name else "the " ++ name
     | KDefPropName => name
     | KDateTime => "the " ++ name
@@ -183,8 +194,12 @@ Fixpoint gen_lingo_sp (sp : bool) (n : node) (ind : nat) {struct n} : string :=
           | None => name
           end
         else
-          let ps := join ", " (rev strs) in
-          if use_paren && negb sp then name ++ "(" ++ ps ++ ")" else name ++ " " ++ ps
+          match go_bare name (use_paren && negb sp) ops with
+          | Some s => name ++ " " ++ s
+          | None =>
+            let ps := join ", " (rev strs) in
+            if use_paren && negb sp then name ++ "(" ++ ps ++ ")" else name ++ " " ++ ps
+          end
       end
     | _ => name
     end
@@ -238,18 +253,35 @@ Definition js_call_code (nm params : string) : string :=
   if String.eqb nm "return" then (if String.eqb params "" then nm else nm ++ " " ++ params)
   else nm ++ "(" ++ params ++ ")".
 
-Definition wrap_paren (s : string) : string := if starts_with "(" s then s else "(" ++ s ++ ")".
+(* operation.js_between_parentheses: the text is kept only when the node is an infix operation (whose text is "( ... )") *)
+Definition wrap_paren (n : node) (s : string) : string :=
+  let op := match n with Binary name _ _ _ => (match assoc_str name JS_BIN_OP with Some v => v | None => "." end) | _ => "." end in
+  if starts_with "." op || starts_with "sprite(" op || negb (starts_with "(" s) then "(" ++ s ++ ")" else s.
+(* the receiver of a method-style operator: a number or a signed value is put between parentheses *)
+Definition js_receiver (l : node) (ls : string) : string :=
+  match l with
+  | Unary name _ _ => if String.eqb name "minus" || String.eqb name "not" then "(" ++ ls ++ ")" else ls
+  | Leaf KConst name _ _ | Leaf KConstInt name _ _ => if starts_with """" name then ls else "(" ++ ls ++ ")"
+  | _ => ls
+  end.
 
 (* CallFunction.generate_js once the operand texts (in operand order) are known *)
-Definition js_call (name : string) (in_tell fm has_params : bool) (strs : list string) (last_name : option string) : string :=
+(* the only operand of a go command when it is a symbol: go next / go previous / go loop *)
+Definition go_sym (name : string) (o : list node) : option string :=
+  if String.eqb name "go" then single_sym o else None.
+
+Definition js_call (name : string) (in_tell fm has_params : bool) (strs : list string) (last_name : option string)
+           (gosym : option string) : string :=
     let params_str := if has_params then join ", " (rev strs) else "" in
     let nm := if String.eqb name "birth" then "_movie.newScript" else name in
     let nm := if String.eqb nm "new" then (if starts_with "symbol(" params_str then "_movie.newMember" else "_movie.newScript") else nm in
     let '(nm, params_str) :=
       if String.eqb nm "go" then
         let pre := if in_tell then "" else "_movie." in
-        if starts_with "symbol('" params_str then (pre ++ "go" ++ capitalize (slice_neg 8 2 params_str), "")
-        else (pre ++ "go", params_str)
+        match gosym with
+        | Some sy => (pre ++ "go" ++ capitalize sy, "")
+        | None => (pre ++ "go", params_str)
+        end
       else (nm, params_str) in
     let nm := if String.eqb nm "cast" then "member" else nm in
     let nm := if String.eqb nm "continue" then "resume" else nm in
@@ -285,7 +317,7 @@ Fixpoint gen_js (n : node) (ind : nat) (fm : bool) {struct n} : string :=
     else
       let op := assoc_or name JS_BIN_OP in
       if starts_with "sprite(" op then format2 op ls rs
-      else if starts_with "." op then ls ++ op ++ "(" ++ rs ++ ")"
+      else if starts_with "." op then js_receiver l ls ++ op ++ "(" ++ rs ++ ")"
       else "(" ++ ls ++ " " ++ op ++ " " ++ rs ++ ")"
   | SpAssign _ l r mode =>
     let left := field_text (gen_js l ind fm) in
@@ -344,13 +376,13 @@ Fixpoint gen_js (n : node) (ind : nat) (fm : bool) {struct n} : string :=
     | Some (LoadList _ _ o) =>
       js_call name in_tell fm true
               (set_last (map (fun x => gen_js x ind fm) o) (option_map (fun s => "_global." ++ s) (gv_sym_name name o)))
-              (option_map name_of (last_opt o))
-    | Some _ => js_call name in_tell fm true [] None
-    | None => js_call name in_tell fm false [] None
+              (option_map name_of (last_opt o)) (go_sym name o)
+    | Some _ => js_call name in_tell fm true [] None None
+    | None => js_call name in_tell fm false [] None None
     end
   | CallMethod name _ obj params => gen_js obj ind fm ++ "." ++ name ++ "(" ++ gen_js params ind fm ++ ")"
   | Repeat _ _ cond body ty start en varname sign =>
-    let c := wrap_paren (gen_js cond 0%nat fm) in
+    let c := wrap_paren cond (gen_js cond 0%nat fm) in
     let head :=
       if String.eqb ty "while" then "while " ++ c ++ " {
 "
@@ -362,7 +394,7 @@ Fixpoint gen_js (n : node) (ind : nat) (fm : bool) {struct n} : string :=
 " in
     head ++ concat_all (map (fun st => gen_js st (S ind) fm) body) ++ indent ind ++ "}"
   | IfThen _ cond ifs elses =>
-    "if " ++ wrap_paren (gen_js cond 0%nat fm) ++ " {
+    "if " ++ wrap_paren cond (gen_js cond 0%nat fm) ++ " {
 " ++ concat_all (map (fun st => gen_js st (S ind) fm) ifs) ++
     match elses with
     | [] => ""
@@ -373,7 +405,7 @@ Fixpoint gen_js (n : node) (ind : nat) (fm : bool) {struct n} : string :=
   | Jz _ _ _ => "jz"
   | ExitRepeat _ => "break"
   | Tell _ operand body =>
-    "with " ++ wrap_paren (gen_js operand 0%nat fm) ++ " {
+    "with " ++ wrap_paren operand (gen_js operand 0%nat fm) ++ " {
 " ++ concat_all (map (fun st => gen_js st (S ind) fm) body) ++ indent ind ++ "}"
   end.
 
